@@ -14,6 +14,8 @@ import (
 	"path"
 	"sort"
 	"strings"
+	"sync"
+	"time"
 
 	"github.com/pingcap/kvproto/pkg/metapb"
 	"github.com/pingcap/kvproto/pkg/pdpb"
@@ -25,6 +27,7 @@ import (
 	"github.com/tikv/pd/server/schedule/filter"
 	"github.com/tikv/pd/server/schedule/hbstream"
 	"github.com/tikv/pd/server/schedule/operator"
+	"github.com/tikv/pd/server/schedule/placement"
 	"github.com/tikv/pd/server/schedulers"
 	"github.com/tikv/pd/server/statistics"
 	"go.uber.org/zap"
@@ -53,8 +56,11 @@ type action struct {
 	Stores  []uint64 // put: the stores; Stores[0] is the leader
 	Sched   string   // schedule: scheduler type
 	Args    []string
-	Hot     []int // schedule (hot-region, shuffle-hot-region): regions reported as hot spots before
-	HotRead bool  // read hot spots instead of write hot spots
+	Hot     []int    // schedule (hot-region, shuffle-hot-region): regions reported as hot spots before
+	HotRead bool     // read hot spots instead of write hot spots
+	Conc    []int    // conc: indices of the regions scattered by one goroutine each
+	Groups  []string // conc: the group of each
+	Seed    uint64   // conc: seed of the interleaving
 }
 
 type history struct {
@@ -166,6 +172,176 @@ func isTiflash(spec gen10.ClusterSpec, store uint64) bool {
 
 var schedTypes = []string{schedulers.BalanceRegionType, schedulers.BalanceLeaderType, schedulers.ShuffleRegionType, schedulers.ShuffleLeaderType,
 	schedulers.EvictLeaderType, schedulers.GrantLeaderType, schedulers.LabelType, schedulers.ScatterRangeType, schedulers.ShuffleHotRegionType, schedulers.HotRegionType}
+
+func healthyStore(id uint64, labels ...[2]string) gen10.StoreSpec {
+	return gen10.StoreSpec{ID: id, Regions: 10, Leaders: 3, Labels: labels}
+}
+
+func baseCfg(rules bool) gen10.CfgSpec {
+	return gen10.CfgSpec{MaxReplicas: 3, RemoveDown: true, ReplaceOffline: true, MakeUp: true, RemoveExtra: true, LocationReplace: true, Rules: rules, Joint: true}
+}
+
+// genLearnerHistory: regions with learners as a class. Variant A: >= 2 tiflash learners per region on 3-4 tiflash stores;
+// variant B: a placement rule puts one learner on an ordinary store. Histories (scatters of sibling regions, recorded
+// decisions) make single stores attractive.
+func genLearnerHistory(r *rng.R) history {
+	var h history
+	h.Spec.Cfg = baseCfg(true)
+	h.Spec.Cfg.Joint = r.Pct(60)
+	h.Spec.Region = gen10.RegionSpec{ID: 1000}
+	variantA := r.Pct(55)
+	var ord, tf []uint64
+	nOrd := 3 + r.Intn(2)
+	if !variantA {
+		nOrd = 4 + r.Intn(2)
+	}
+	for i := 1; i <= nOrd; i++ {
+		h.Spec.Stores = append(h.Spec.Stores, healthyStore(uint64(i)))
+		ord = append(ord, uint64(i))
+	}
+	learners := 1
+	if variantA {
+		nTf := 3 + r.Intn(2)
+		for i := 0; i < nTf; i++ {
+			id := uint64(nOrd + 1 + i)
+			h.Spec.Stores = append(h.Spec.Stores, healthyStore(id, [2]string{"engine", "tiflash"}))
+			tf = append(tf, id)
+		}
+		learners = 2
+		if nTf == 4 && r.Pct(30) {
+			learners = 3
+		}
+		h.Spec.Rules = []gen10.RuleSpec{{ID: "voters", Index: 1, Role: "voter", Count: 3},
+			{ID: "tiflash", Index: 2, Role: "learner", Count: learners, Cons: []gen10.ConsSpec{{Key: "engine", Op: "in", Values: []string{"tiflash"}}}}}
+		h.Spec.Tags = []string{"class:tiflash-learners"}
+	} else {
+		h.Spec.Rules = []gen10.RuleSpec{{ID: "voters", Index: 1, Role: "voter", Count: 3}, {ID: "learner", Index: 2, Role: "learner", Count: 1}}
+		h.Spec.Tags = []string{"class:ordinary-learner"}
+	}
+	shuffle := func(xs []uint64) []uint64 {
+		p := append([]uint64(nil), xs...)
+		for a := len(p) - 1; a > 0; a-- {
+			b := r.Intn(a + 1)
+			p[a], p[b] = p[b], p[a]
+		}
+		return p
+	}
+	next := uint64(3001)
+	mk := func(id uint64) regionSpec {
+		rs := regionSpec{ID: id}
+		po := shuffle(ord)
+		for j := 0; j < 3; j++ {
+			rs.Peers = append(rs.Peers, gen10.PeerSpec{ID: next, Store: po[j]})
+			next++
+		}
+		if variantA {
+			pt := shuffle(tf)
+			for j := 0; j < learners; j++ {
+				rs.Peers = append(rs.Peers, gen10.PeerSpec{ID: next, Store: pt[j], Role: 1})
+				next++
+			}
+		} else {
+			rs.Peers = append(rs.Peers, gen10.PeerSpec{ID: next, Store: po[3], Role: 1})
+			next++
+		}
+		rs.Leader = r.Intn(3)
+		return rs
+	}
+	h.Spec.Region.Peers = mk(1000).Peers
+	lp := h.Spec.Region.Peers[0]
+	h.Spec.Region.Leader = &lp
+	for i := 0; i < 3+r.Intn(5); i++ {
+		h.Regions = append(h.Regions, mk(uint64(1001+i)))
+	}
+	groups := []string{"g1", "g2"}
+	put := func() {
+		rg := h.Regions[r.Intn(len(h.Regions))]
+		var st []uint64
+		for _, p := range rg.Peers {
+			if r.Pct(75) {
+				st = append(st, p.Store)
+			}
+		}
+		if len(st) > 0 && !isTiflash(h.Spec, st[0]) {
+			h.Actions = append(h.Actions, action{Kind: "put", Group: groups[r.Pick(75, 25)], Stores: st})
+		}
+	}
+	for i := r.Intn(3); i > 0; i-- {
+		put()
+	}
+	for i := 5 + r.Intn(9); i > 0; i-- {
+		h.Actions = append(h.Actions, action{Kind: "scatter", Region: r.Intn(len(h.Regions)), Group: groups[r.Pick(75, 25)]})
+		switch r.Pick(35, 35, 30) {
+		case 0:
+			h.Actions = append(h.Actions, action{Kind: "apply"})
+		case 1:
+			put()
+		}
+	}
+	return h
+}
+
+// genConcHistory: small healthy clusters, several regions on overlapping stores, recorded decisions, then rounds of
+// Scatter calls issued by one goroutine per region on the same RegionScatterer, interleaved by a seeded cooperative
+// scheduler at the points where the scatterer asks the cluster for the region's stores / fit.
+func genConcHistory(r *rng.R) history {
+	var h history
+	h.Spec.Cfg = baseCfg(r.Pct(40))
+	h.Spec.Cfg.Joint = r.Pct(60)
+	h.Spec.Tags = []string{"class:concurrent"}
+	n := 3 + r.Pick(50, 30, 20)
+	var ids []uint64
+	for i := 1; i <= n; i++ {
+		h.Spec.Stores = append(h.Spec.Stores, healthyStore(uint64(i)))
+		ids = append(ids, uint64(i))
+	}
+	next := uint64(3001)
+	mk := func(id uint64) regionSpec {
+		rs := regionSpec{ID: id}
+		p := append([]uint64(nil), ids...)
+		for a := len(p) - 1; a > 0; a-- {
+			b := r.Intn(a + 1)
+			p[a], p[b] = p[b], p[a]
+		}
+		for j := 0; j < 3; j++ {
+			rs.Peers = append(rs.Peers, gen10.PeerSpec{ID: next, Store: p[j]})
+			next++
+		}
+		rs.Leader = r.Intn(3)
+		return rs
+	}
+	h.Spec.Region = gen10.RegionSpec{ID: 1000, Peers: mk(1000).Peers}
+	lp := h.Spec.Region.Peers[0]
+	h.Spec.Region.Leader = &lp
+	nr := 3 + r.Intn(4)
+	for i := 0; i < nr; i++ {
+		h.Regions = append(h.Regions, mk(uint64(1001+i)))
+	}
+	groups := []string{"g1", "g2", ""}
+	for round := 2 + r.Intn(3); round > 0; round-- {
+		for i := r.Intn(3); i > 0; i-- {
+			rg := h.Regions[r.Intn(nr)]
+			var st []uint64
+			for _, p := range rg.Peers {
+				if r.Pct(70) {
+					st = append(st, p.Store)
+				}
+			}
+			if len(st) > 0 {
+				h.Actions = append(h.Actions, action{Kind: "put", Group: groups[r.Intn(2)], Stores: st})
+			}
+		}
+		a := action{Kind: "conc", Seed: r.U64()}
+		k := 2 + r.Pick(60, 30, 10)
+		perm := r.Intn(nr)
+		for j := 0; j < k && j < nr; j++ {
+			a.Conc = append(a.Conc, (perm+j)%nr)
+			a.Groups = append(a.Groups, groups[r.Pick(45, 45, 10)])
+		}
+		h.Actions = append(h.Actions, a)
+	}
+	return h
+}
 
 func genHistory(r *rng.R, scatter bool) history {
 	var h history
@@ -353,6 +529,119 @@ func coqOp(region *core.RegionInfo, op *operator.Operator) (string, *sim10.Trace
 	return fmt.Sprintf("(Some (ImplOp %s %s))", sim10.CoqSteps(tr.Steps), sim10.CoqState(tr.Final())), tr
 }
 
+// hookCluster is the mock cluster plus a hook called, on the calling goroutine, whenever the scatterer asks for the stores
+// or the placement fit of a region (while it builds / evaluates the placement safeguard). The concurrent phase parks the
+// goroutines there; the parking is in the harness, PD is untouched.
+type hookCluster struct {
+	*mockcluster.Cluster
+	mu   sync.Mutex
+	hook func(regionID uint64)
+}
+
+func (c *hookCluster) call(id uint64) {
+	c.mu.Lock()
+	h := c.hook
+	c.mu.Unlock()
+	if h != nil {
+		h(id)
+	}
+}
+
+func (c *hookCluster) GetRegionStores(region *core.RegionInfo) []*core.StoreInfo {
+	c.call(region.GetID())
+	return c.Cluster.GetRegionStores(region)
+}
+
+func (c *hookCluster) FitRegion(region *core.RegionInfo) *placement.RegionFit {
+	c.call(region.GetID())
+	return c.Cluster.FitRegion(region)
+}
+
+type concResult struct {
+	region int
+	op     *operator.Operator
+	err    error
+}
+
+// runConcurrent runs one Scatter call per region on its own goroutine; exactly one goroutine runs at a time, and at every
+// hook point the seeded scheduler decides which one continues (a deterministic interleaving given the seed, up to Go's map
+// iteration order inside PD).
+func runConcurrent(hc *hookCluster, sc *schedule.RegionScatterer, regions []*core.RegionInfo, idx []int, groups []string, seed uint64) []concResult {
+	r := rng.New(seed)
+	type worker struct {
+		grant chan struct{}
+		done  bool
+	}
+	ws := map[uint64]*worker{}
+	byID := map[uint64]int{}
+	events := make(chan uint64) // a worker yielded (its region id) or finished (id | 1<<63)
+	for k, ri := range idx {
+		id := regions[ri].GetID()
+		if _, dup := ws[id]; dup {
+			continue
+		}
+		ws[id] = &worker{grant: make(chan struct{})}
+		byID[id] = k
+	}
+	results := make([]concResult, 0, len(ws))
+	var resMu sync.Mutex
+	hc.mu.Lock()
+	hc.hook = func(id uint64) {
+		if w, ok := ws[id]; ok {
+			events <- id
+			<-w.grant
+		}
+	}
+	hc.mu.Unlock()
+	for id, w := range ws {
+		id, w := id, w
+		k := byID[id]
+		go func() {
+			<-w.grant
+			op, err := sc.Scatter(regions[idx[k]], groups[k])
+			resMu.Lock()
+			results = append(results, concResult{idx[k], op, err})
+			resMu.Unlock()
+			events <- id | 1<<63
+		}()
+	}
+	var order []uint64
+	for id := range ws {
+		order = append(order, id)
+	}
+	sort.Slice(order, func(i, j int) bool { return order[i] < order[j] })
+	cur := uint64(0)
+	for len(order) > 0 {
+		// keep the current goroutine with probability 1/3, otherwise switch
+		next := cur
+		if cur == 0 || ws[cur].done || r.Pct(67) {
+			next = order[r.Intn(len(order))]
+		}
+		cur = next
+		ws[cur].grant <- struct{}{}
+		select {
+		case ev := <-events:
+			if ev&(1<<63) != 0 {
+				id := ev &^ (1 << 63)
+				ws[id].done = true
+				for i, x := range order {
+					if x == id {
+						order = append(order[:i], order[i+1:]...)
+						break
+					}
+				}
+			}
+		case <-time.After(20 * time.Second):
+			panic("concurrent phase: scheduler stuck")
+		}
+	}
+	hc.mu.Lock()
+	hc.hook = nil
+	hc.mu.Unlock()
+	sort.Slice(results, func(i, j int) bool { return results[i].region < results[j].region })
+	return results
+}
+
 // ---------- running ----------
 
 type emitFn func(coq string, canon string, nontrivial bool, tags []string, viol []res.Violation)
@@ -369,11 +658,13 @@ func runHistory(h history, emit emitFn, hidx int) []string {
 	}
 	ctx, cancel := context.WithCancel(context.Background())
 	defer cancel()
-	sc := schedule.NewRegionScatterer(ctx, tc)
+	hc := &hookCluster{Cluster: tc}
+	sc := schedule.NewRegionScatterer(ctx, hc)
 	stores := bt.CoqStores()
 	labels := labelsOf(tc)
 	rules := tc.GetOpts().IsPlacementRulesEnabled()
 	var lastRegion int = -1
+	tfCtx := false // the tiflash engine context of the scatterer exists
 	var lastFinal *sim10.State
 	anomalies := func(tr *sim10.Trace, what string) []res.Violation {
 		var v []res.Violation
@@ -387,6 +678,11 @@ func runHistory(h history, emit emitFn, hidx int) []string {
 		case "put":
 			peers := map[uint64]*metapb.Peer{}
 			for _, s := range a.Stores {
+				// Put on a tiflash store before the first tiflash peer was scattered dereferences the not yet created
+				// engine context in the real code: such stores are left out until then
+				if isTiflash(h.Spec, s) && !tfCtx {
+					continue
+				}
 				peers[s] = &metapb.Peer{StoreId: s}
 			}
 			sc.Put(peers, a.Stores[0], a.Group)
@@ -419,6 +715,13 @@ func runHistory(h history, emit emitFn, hidx int) []string {
 			}
 			op, err := sc.Scatter(region, a.Group)
 			after := coqScst(sc)
+			if err == nil {
+				for _, p := range region.GetPeers() {
+					if isTiflash(h.Spec, p.GetStoreId()) {
+						tfCtx = true
+					}
+				}
+			}
 			if err != nil {
 				log = append(log, fmt.Sprintf("scatter region %d group %q: refused: %v", region.GetID(), a.Group, err))
 				emit("", "", false, []string{"scatter:refused"}, nil)
@@ -445,6 +748,24 @@ func runHistory(h history, emit emitFn, hidx int) []string {
 			so := fmt.Sprintf("(Some (ScatterObs %d %s [%s] %v %s))", groupIDs[a.Group], before, strings.Join(guard, "; "), !rules, after)
 			coq := fmt.Sprintf("(Case SScatter\n   %s\n   %s %s\n   %s\n   %s)", stores, labels, coqRegion(region), opS, so)
 			emit(coq, coq, true, tags, viol)
+		case "conc":
+			rs := runConcurrent(hc, sc, regions, a.Conc, a.Groups, a.Seed)
+			for _, cr := range rs {
+				region := regions[cr.region]
+				if cr.err != nil {
+					emit("", "", false, []string{"conc:refused"}, nil)
+					continue
+				}
+				if cr.op == nil {
+					emit("", "", false, []string{"conc:no-operator"}, nil)
+					continue
+				}
+				opS, tr := coqOp(region, cr.op)
+				coq := fmt.Sprintf("(Case SScatterConc\n   %s\n   %s %s\n   %s\n   None)", stores, labels, coqRegion(region), opS)
+				log = append(log, fmt.Sprintf("concurrent scatter (seed %d) region %d %v -> %s", a.Seed, region.GetID(), sim10.StoresOf(sim10.FromRegion(region)), sim10.Summary(cr.op)))
+				emit(coq, coq, true, []string{"conc:operator"}, anomalies(tr, sim10.Summary(cr.op)))
+			}
+			lastFinal = nil
 		case "schedule":
 			if len(a.Hot) > 0 {
 				// report write hot spots the way PD's own hot-region tests do (voters only; the region is re-created)
@@ -612,7 +933,14 @@ func main() {
 		master := rng.New(*seed)
 		for k := 0; k < *n; k++ {
 			r := master.Fork(uint64(k))
-			run(genHistory(r, k%2 == 0), false)
+			switch k % 6 {
+			case 2:
+				run(genLearnerHistory(r), false)
+			case 5:
+				run(genConcHistory(r), false)
+			default:
+				run(genHistory(r, k%2 == 0), false)
+			}
 		}
 	}
 	if err := cf.Flush(); err != nil {
